@@ -20,6 +20,9 @@ pub enum Case {
     BuilderSeq { solver: SolverKind, dynamic: bool, seq: Vec<u8>, complete: bool },
     /// dimension misuse: new() on a dynamic dimension / new_dyn() on a static one
     DimMisuse { solver: SolverKind, dynamic_type: bool },
+    /// a complete valid configuration with exactly one mandatory call left out (index into the
+    /// canonical call list), the remaining calls rotated by `rot`: must give MissingParameters at solve
+    MissingOne { solver: SolverKind, dynamic: bool, missing: u8, rot: u8 },
     /// the derivative fails at call number k of configuration `cfg`
     Fault { solver: SolverKind, cfg: u8, k: usize },
 }
@@ -396,6 +399,29 @@ pub fn run_case(case: &Case) -> Outcome {
             }
         }
         Case::Fault { solver, cfg, k } => run_fault(*solver, *cfg, *k, o),
+        Case::MissingOne { solver, dynamic, missing, rot } => {
+            o.label("missing-one");
+            o.label(solver.name());
+            o.nontrivial = true;
+            let euler = *solver == SolverKind::Euler;
+            let mut calls = if euler {
+                vec![Call::MaxDt(0.05), Call::Start(T_A), Call::End(T_B), Call::Init, Call::Deriv]
+            } else {
+                vec![Call::Tol(1e-4), Call::MaxDt(0.1), Call::MinDt(0.001), Call::Start(T_A), Call::End(T_B), Call::Init, Call::Deriv]
+            };
+            let m = *missing as usize % calls.len();
+            let left_out = calls.remove(m);
+            let r = *rot as usize % calls.len();
+            calls.rotate_left(r);
+            let probe = Rc::new(RefCell::new(Probe { budget: 1_000_000, ..Default::default() }));
+            let rhs = |_t: f64, y: &[f64], out: &mut [f64]| out[0] = -y[0];
+            let run = run_real(*solver, *dynamic, 1, &calls, &[1.0], probe, &rhs, 100_000, 0);
+            match &run.end {
+                End::Build(i, ErrKind::MissingParameters) if *i == calls.len() + 1 => o.pass(),
+                End::Panic(m) => o.fail(format!("configuration without {left_out:?} panicked at solve: {m}")),
+                other => o.fail(format!("configuration {calls:?} lacks the mandatory {left_out:?}; solve must report MissingParameters but the run ended with {other:?} after {} points", run.pts.len())),
+            }
+        }
     }
 }
 
@@ -447,6 +473,16 @@ pub fn run(opts: &Opts) -> i32 {
                 }
             }
         }
+        for dynamic in [false, true] {
+            for missing in 0..7u8 {
+                for rot in 0..6u8 {
+                    if solver == SolverKind::Euler && (missing >= 5 || rot >= 4) {
+                        continue;
+                    }
+                    spec.enumerated.push(Case::MissingOne { solver, dynamic, missing, rot });
+                }
+            }
+        }
         spec.enumerated.push(Case::DimMisuse { solver, dynamic_type: false });
         spec.enumerated.push(Case::DimMisuse { solver, dynamic_type: true });
         // every fault position k of every configuration (up to 400 per configuration, beyond that log-spaced)
@@ -467,7 +503,7 @@ pub fn run(opts: &Opts) -> i32 {
     }
     spec.cases = opts.tier.pick(20_000, 300_000);
     spec.exhaustive = Some(format!("every builder-call sequence of length <= {maxlen} over a 17-symbol alphabet (valid/zero/negative tolerance, small/large/zero/negative maximum and minimum step, two start and two end times, conditions, derivative) x 7 builders x static/dynamic x with/without completion; every fault position k <= min(N, 400) of 10 configurations per solver"));
-    spec.rule = "enumerated: all builder-call sequences of the stated length over the 17-symbol alphabet followed by solve, with and without completion by the missing mandatory calls, for the 7 builders in static and dynamic dimension, compared call by call with a reference model of the builder contract (dedicated error kinds, min/max adjustment, Euler's running average, MissingParameters at solve); sequences that build are solved on y' = 0 and y' = -y and must give a C01-valid path within the model's effective step bounds; dimension misuse; for 10 fixed configurations per solver the derivative fails with Marker(k) at every call number k of the fault-free run (all k <= 400, log-spaced beyond): the points before the error are a bit-identical prefix, exactly one Err(UserError(Marker(k))) item, then None five times with no further derivative calls, and collect_vec returns the same error. Generated: longer sequences (5-12 calls). Non-trivial = sequences that build after an overwrite or a min/max crossing, every fault case, dimension misuse. Distinct = distinct case JSON.".into();
+    spec.rule = "enumerated: all builder-call sequences of the stated length over the 17-symbol alphabet followed by solve, with and without completion by the missing mandatory calls, for the 7 builders in static and dynamic dimension, compared call by call with a reference model of the builder contract (dedicated error kinds, min/max adjustment, Euler's running average, MissingParameters at solve); sequences that build are solved on y' = 0 and y' = -y and must give a C01-valid path within the model's effective step bounds; dimension misuse; every complete configuration with exactly one mandatory call left out (all rotations of the remaining calls) must report MissingParameters at solve; for 10 fixed configurations per solver the derivative fails with Marker(k) at every call number k of the fault-free run (all k <= 400, log-spaced beyond): the points before the error are a bit-identical prefix, exactly one Err(UserError(Marker(k))) item, then None five times with no further derivative calls, and collect_vec returns the same error. Generated: longer sequences (5-12 calls). Non-trivial = sequences that build after an overwrite or a min/max crossing, every fault case, dimension misuse. Distinct = distinct case JSON.".into();
     spec.assumptions = vec!["reference model of the builder contract as documented in the rustdoc of with_maximum_dt / with_minimum_dt and observed error kinds".into()];
     spec.max_shrink_iters = 2000;
     run_spec(spec, opts)
